@@ -37,7 +37,7 @@ IMPORTS = {
     "C06": [("c17", None, "the value-typed operators are reachable from parse_val / eval"),
             ("c16", ["R16.3"], "unchecked integer arithmetic panics in debug builds"),
             ("c01", ["R01.5"], "the sort key must not overflow for any nesting depth"),
-            ("c14", ["R14.3"], "an undersized tracker indexes out of bounds"),
+            ("c14", None, "an undersized or misused tracker shifts out of range / indexes out of bounds"),
             ("c07", ["R07.3", "R07.5"], "the builders index the token list unchecked: they may only run past the token check"),
             ("c13", ["R13.7"], "the tokenizer slices the text at the offset the boundary helper returns")],
     "C07": [("c13", None, "what the tokenizer accepts as a token decides what is malformed"),
